@@ -1,16 +1,17 @@
-import IofloModel.Model.Rotate
+import IofloModel.Model.RotateMulti
 import IofloModel.Drv.Proto
 /-!
 driver for the rotation model (engine `rotate`).  One case = `cfg …`, operations, then queries.
 
 ```
-cfg <keep> <cyclePeriod> <fileSize> <flushPeriod> <reuse 0|1> <hsize>   → ok   (periods in 1/8 s; resets)
+cfg <keep> <cyclePeriod> <fileSize> <flushPeriod> <reuse 0|1> <hsize>,<hsize>…   → ok
+        (periods in 1/8 s; resets; one log per header size: the logger has that many logs)
 adv <n> | ctl start|run|stop | reboot                                    → ok
-recs - | recs . | recs <size>,<size>…    → ok    what the next run's action writes: nothing / write("") / records
-region D53                               → in | out
-trace                                    → the primitives performed, e.g. `A T1 T2 W W S …`
-states                                   → the distinct successive crash states, joined by ` || `
-crash <n>                                → files after a kill before primitive number n
+recs <i> - | recs <i> . | recs <i> <size>,<size>…   → ok    what log i's action writes at the next run:
+                                                            nothing / write("") / records of these sizes
+trace <i>                                → the primitives log i performed, e.g. `A T1 T2 W W S …`
+states <i>                               → the distinct successive crash states of log i, joined by ` || `
+crash <i> <n>                            → log i's files after a kill before its primitive number n
 ```
 a state lists the files newest first, joined by `;`: `-` absent, `.` empty, else `H` / `r<n>:<size>` joined by `,`
 -/
@@ -54,43 +55,40 @@ def parseBatch (s : String) : Option (Option (List Nat)) :=
   else if s = "." then some (some [])
   else ((s.splitOn ",").mapM String.toNat?).map some
 
-structure D where
-  init : St
-  ops : List Op := []     -- reversed
-  cur : St
-
-def D.run (d : D) (op : Op) : D := { d with ops := op :: d.ops, cur := d.cur.step op }
-
-def step (st : Option D) (line : String) : Option D × String :=
+def step (st : Option MSt) (line : String) : Option MSt × String :=
   match words line, st with
   | ["cfg", k, cp, fsz, fp, ru, hs], _ =>
-    match k.toInt?, cp.toInt?, fsz.toInt?, fp.toInt?, hs.toNat? with
+    match k.toInt?, cp.toInt?, fsz.toInt?, fp.toInt?, (hs.splitOn ",").mapM String.toNat? with
     | some k, some cp, some fsz, some fp, some hs =>
-      if ru = "0" ∨ ru = "1" then
-        (some { init := { cfg := Cfg.ofArgs k cp fsz fp (ru == "1") hs },
-                cur := { cfg := Cfg.ofArgs k cp fsz fp (ru == "1") hs } }, "ok")
+      if (ru = "0" ∨ ru = "1") ∧ !hs.isEmpty then
+        (some (MSt.init (Cfg.ofArgs k cp fsz fp (ru == "1") 0) hs), "ok")
       else (st, "bad-op")
     | _, _, _, _, _ => (st, "bad-op")
   | ["adv", d], some s =>
     match d.toNat? with
-    | some n => (some (s.run (.advance n)), "ok")
+    | some n => (some (s.step (.advance n)), "ok")
     | none => (st, "bad-op")
-  | ["recs", b], some s =>
-    match parseBatch b with
-    | some x => (some (s.run (.batch x)), "ok")
-    | none => (st, "bad-op")
-  | ["reboot"], some s => (some (s.run .reboot), "ok")
-  | ["region", "D53"], some s => (st, if emptyKill s.init s.ops.reverse then "in" else "out")
+  | ["recs", i, b], some s =>
+    match i.toNat?, parseBatch b with
+    | some i, some x => if i < s.length then (some (s.step (.batch i x)), "ok") else (st, "bad-op")
+    | _, _ => (st, "bad-op")
+  | ["reboot"], some s => (some (s.step .reboot), "ok")
   | ["ctl", c], some s =>
     match parseCtl c with
-    | some c => (some (s.run (.ctl c)), "ok")
+    | some c => (some (s.step (.ctl c)), "ok")
     | none => (st, "bad-op")
-  | ["trace"], some s => (st, " ".intercalate (s.cur.trace.map showPrim))
-  | ["states"], some s => (st, " || ".intercalate (dedup (allStates s.cur.cfg.keep s.cur.fs0 s.cur.trace)))
-  | ["crash", n], some s =>
-    match n.toNat? with
-    | some n => (st, showFS s.cur.cfg.keep (s.cur.crashAt n))
+  | ["trace", i], some s =>
+    match i.toNat?.bind (s[·]?) with
+    | some l => (st, " ".intercalate (l.trace.map showPrim))
     | none => (st, "bad-op")
+  | ["states", i], some s =>
+    match i.toNat?.bind (s[·]?) with
+    | some l => (st, " || ".intercalate (dedup (allStates l.cfg.keep l.fs0 l.trace)))
+    | none => (st, "bad-op")
+  | ["crash", i, n], some s =>
+    match i.toNat?.bind (s[·]?), n.toNat? with
+    | some l, some n => (st, showFS l.cfg.keep (l.crashAt n))
+    | _, _ => (st, "bad-op")
   | _, _ => (st, "bad-op")
 
 end Ioflo.Drv.Rotate
